@@ -513,7 +513,21 @@ func (w *world) build(name string, spec *Noti) *pb.Notification {
 		if i == 0 && rel && !spec.Atomic {
 			p = first
 		}
-		n.Update = append(n.Update, &pb.Update{Path: gn.Path("", "", p, spec.Element, 2), Val: u.Val.TV()})
+		up := gn.Path("", "", p, spec.Element, 2)
+		if spec.Share {
+			// callers also reuse path objects between notifications
+			uk := fmt.Sprintf("path|%v|%v", spec.Element, gn.IndexOfElems(p, false))
+			for _, e := range p {
+				uk += fmt.Sprintf("|%v", e.Keys)
+			}
+			if pp, ok := w.pool[uk]; ok {
+				up = pp
+			} else {
+				w.pool[uk] = up
+				w.poolLen[uk] = len(p)
+			}
+		}
+		n.Update = append(n.Update, &pb.Update{Path: up, Val: u.Val.TV()})
 	}
 	for i, d := range spec.Deletes {
 		p := d
